@@ -216,6 +216,11 @@ def generate(rng, opts):
             extra = [_gen_member(rng, n, DEFAULT_KIND[n], "st", 1, cfg) for n in rng.sample(["n", "v"], rng.choice([1, 2]))]
             stub_c = {"k": "class", "name": "C", "doc": None, "bases": [], "members": [{"k": "func", "name": "m", "params": [["self", None, False]], "ret": "int", "doc": None}] + extra}
             sides["st"]["members"] = [m for m in sides["st"]["members"] if m["name"] != "C"] + [stub_c]
+    if placement != "single" and "pkg.a" in modules and modules["pkg"]["rt"] is not None and rng.random() < 0.15:
+        # the package's __init__ binds a name equal to that of a sub-module (`from pkg.a import f as a`, `def a()`):
+        # the sub-module takes the slot when it is loaded, whichever of a.py / a.pyi comes first
+        shadow = rng.choice([{"k": "import", "name": "a", "from": "pkg.a", "orig": rng.choice(["f", "g", "C", "x"])}, _gen_member(rng, "a", "func", "rt", 0, cfg), _gen_member(rng, "a", "attr", "rt", 0, cfg)])
+        modules["pkg"]["rt"]["members"].append(shadow)
     reexported_module = None
     if placement == "stubs_pkg" and rng.random() < 0.15 and "pkg.c" not in modules:
         # the os.path pattern: the package re-exports a private *module* under a public name
